@@ -522,6 +522,13 @@ Section Spec.
     | SID, VInt _ l _ => int64_lit_ok l
     | SCustom None, _ => true
     | SCustom (Some ks), _ => existsb (vkind_eqb (v_kind v)) ks
+    | SRefined acc p, _ =>
+        match acc with None => true | Some ks => existsb (vkind_eqb (v_kind v)) ks end &&
+        match p, v with
+        | PIntRange lo hi, VInt _ l _ => match int_lit l with Some z => Z.leb lo z && Z.leb z hi | None => false end
+        | PStringIn ok, VString _ s _ => ok s
+        | _, _ => true
+        end
     | _, _ => false
     end.
 
